@@ -303,6 +303,19 @@ func (rg *e2eRig) runConn(c xconn) ([]xobsJ, []sentInfo) {
 	return obs, sent
 }
 
+// transportTrouble: an exchange failed below HTTP although the previous one on the connection was answered 200.
+func transportTrouble(obs []xobsJ) bool {
+	for i, o := range obs {
+		if i > 0 && obs[i-1].Status != 200 {
+			return false
+		}
+		if o.Err != "" {
+			return true
+		}
+	}
+	return false
+}
+
 func framingN(f string) int {
 	switch f {
 	case "cl":
@@ -568,6 +581,10 @@ func runE2E(r *rng.R, tier, out string, m *meta) {
 	}
 	for _, c := range conns {
 		obs, sent := rg.runConn(c)
+		if transportTrouble(obs) { // e.g. a deadline on an overloaded machine: one more try on a fresh connection
+			stats["connections_retried"]++
+			obs, sent = rg.runConn(c)
+		}
 		stats["connections"]++
 		stats[fmt.Sprintf("requests_per_connection:%d", len(c.Reqs))]++
 		if c.Pipelined {
